@@ -11,6 +11,7 @@ from .mesh import CylindricalGrid2D
 from .mesh import PolarGrid2D, CylindricalGrid3D, SphericalGrid3D
 from .utilities import int_range
 from .utilities import TrackedArray
+from . import _verif_trace as _vt
 
 
 #%%
@@ -56,6 +57,7 @@ class BoundaryFace:
         return change
     
     @modified.setter
+    @_vt.traced("face_setflag", _vt.d_face_flag)
     def modified(self, val):
         modval = bool(val)
         self._a.modified = modval
@@ -95,6 +97,7 @@ class BoundaryFace:
         return self._periodic
 
     @periodic.setter       
+    @_vt.traced("periodic", _vt.d_periodic)
     def periodic(self, val):
         self.modified = True
         self._periodic = bool(val)
@@ -245,6 +248,7 @@ class BoundaryConditionsBase:
         boundary condition for the back face
     """
     
+    @_vt.traced("new_bc", _vt.d_new_bc)
     def __init__(self, mesh: MeshStructure,
                  left: BoundaryFace, right: BoundaryFace,
                  bottom: BoundaryFace, top: BoundaryFace,
@@ -283,6 +287,7 @@ class BoundaryConditionsBase:
                 or self.front.modified or self.back.modified)
             
     @modified.setter
+    @_vt.traced("bc_setflag", _vt.d_bc_flag)
     def modified(self, val):
         # To keep things simple, we always include all possible faces,
         # even for 1D and 2D, since all BoundaryFaces always exist, even when 
